@@ -59,7 +59,7 @@ LOOKUPS = ['lookup', 'lookupone', 'dictlookup', 'dictlookupone',
 def budget(tier):
     if tier == 'quick':
         return {'cases': 40000, 'wall_cap_s': 240}
-    return {'cases': 600000, 'wall_cap_s': 1500}
+    return {'cases': 1500000, 'wall_cap_s': 1500}
 
 
 def gen_case(rng, tier, g):
